@@ -87,6 +87,25 @@ impl Flags {
     }
 }
 
+/// A writer that accepts at most `k` bytes per `write` call (a pipe, a terminal, a LineWriter in the
+/// middle of a flush ... are all allowed to do that); `k = usize::MAX` is an ordinary Vec.
+#[derive(Clone, Debug)]
+pub struct ShortWriter {
+    pub buf: Vec<u8>,
+    pub k: usize,
+}
+impl ShortWriter {
+    pub fn new(k: usize) -> ShortWriter { ShortWriter { buf: vec![], k: if k == 0 { usize::MAX } else { k } } }
+}
+impl std::io::Write for ShortWriter {
+    fn write(&mut self, b: &[u8]) -> std::io::Result<usize> {
+        let n = b.len().min(self.k);
+        self.buf.extend_from_slice(&b[..n]);
+        Ok(n)
+    }
+    fn flush(&mut self) -> std::io::Result<()> { Ok(()) }
+}
+
 /// One recorded sink call.
 #[derive(Clone, Debug)]
 pub enum Ev {
@@ -377,7 +396,10 @@ impl Prepared {
     }
 
     /// run the real printer described by `mode` over all files; same shape as the model's result
-    pub fn run_mode(&self, mode: &Val) -> Val {
+    pub fn run_mode(&self, mode: &Val) -> Val { self.run_mode_chunked(mode, 0) }
+
+    /// the same with a writer that takes at most `chunk` bytes per write call (0: unlimited)
+    pub fn run_mode_chunked(&self, mode: &Val, chunk: usize) -> Val {
         let mut searcher = self.flags.searcher();
         let mut per_file = vec![];
         // bytes actually written to the printer's writer during each search
@@ -402,10 +424,10 @@ impl Prepared {
                     .exclude_zero(mode.fld(5).b())
                     .separator_field(mode.fld(6).bytes())
                     .path_terminator(opt_byte(mode.fld(7)))
-                    .build_no_color(vec![]);
+                    .build_no_color(ShortWriter::new(chunk));
                 for (path, input) in &self.files {
                     let pb = path_of(path);
-                    let before = p.get_mut().get_ref().len();
+                    let before = p.get_mut().get_ref().buf.len();
                     let (ok, has, st) = match &pb {
                         Some(pb) => {
                             let mut sink = p.sink_with_path(&self.matcher, pb);
@@ -419,9 +441,9 @@ impl Prepared {
                         }
                     };
                     per_file.push(row(ok, 0, has, st));
-                    written.push(Val::of_us(p.get_mut().get_ref().len() - before));
+                    written.push(Val::of_us(p.get_mut().get_ref().buf.len() - before));
                 }
-                Val::L(vec![Val::of_bytes(&p.into_inner().into_inner()), Val::L(per_file), Val::L(written)])
+                Val::L(vec![Val::of_bytes(&p.into_inner().into_inner().buf), Val::L(per_file), Val::L(written)])
             }
             1 => {
                 let mut p = StandardBuilder::new()
@@ -439,10 +461,10 @@ impl Prepared {
                     .separator_field_match(mode.fld(12).bytes())
                     .separator_field_context(mode.fld(13).bytes())
                     .path_terminator(opt_byte(mode.fld(14)))
-                    .build_no_color(vec![]);
+                    .build_no_color(ShortWriter::new(chunk));
                 for (path, input) in &self.files {
                     let pb = path_of(path);
-                    let before = p.get_mut().get_ref().len();
+                    let before = p.get_mut().get_ref().buf.len();
                     let (ok, mc, st) = match &pb {
                         Some(pb) => {
                             let mut sink = p.sink_with_path(&self.matcher, pb);
@@ -456,15 +478,15 @@ impl Prepared {
                         }
                     };
                     per_file.push(row(ok, mc, mc > 0, st));
-                    written.push(Val::of_us(p.get_mut().get_ref().len() - before));
+                    written.push(Val::of_us(p.get_mut().get_ref().buf.len() - before));
                 }
-                Val::L(vec![Val::of_bytes(&p.into_inner().into_inner()), Val::L(per_file), Val::L(written)])
+                Val::L(vec![Val::of_bytes(&p.into_inner().into_inner().buf), Val::L(per_file), Val::L(written)])
             }
             _ => {
                 let mut p = JSONBuilder::new()
                     .max_matches(opt_u(mode.fld(1)))
                     .always_begin_end(mode.fld(2).b())
-                    .build(vec![]);
+                    .build(ShortWriter::new(chunk));
                 for (path, input) in &self.files {
                     let pb = path_of(path);
                     let (ok, mc, st) = match &pb {
@@ -481,7 +503,7 @@ impl Prepared {
                     };
                     per_file.push(row(ok, mc, mc > 0, Some(st)));
                 }
-                let out = p.into_inner();
+                let out = p.into_inner().buf;
                 let msgs: Vec<Val> =
                     out.split(|&b| b == b'\n').filter(|l| !l.is_empty()).map(json_msg).collect();
                 Val::L(vec![Val::L(msgs), Val::L(per_file), Val::L(written)])
@@ -504,7 +526,16 @@ pub fn run_printers(v: &Val) -> Val {
     let (env, tables, fvals) = prep.model_parts();
     let modes = v.fld(3).clone();
     let real: Vec<Val> = modes.list().iter().map(|m| prep.run_mode(m)).collect();
-    Val::L(vec![Val::N(0), Val::L(vec![env, tables, fvals, modes]), Val::L(real), Val::of_bool(prep.prefix_law)])
+    // optional field 4 of the case: print again through a writer that takes at most that many bytes per call;
+    // everything observable must be the same (per mode: 1 = same, else (0 what-the-short-writer-got))
+    let chunk = v.fld(4).us();
+    let short: Vec<Val> = if chunk == 0 { vec![] } else {
+        modes.list().iter().zip(real.iter()).map(|(m, r)| {
+            let s = prep.run_mode_chunked(m, chunk);
+            if &s == r { Val::N(1) } else { Val::L(vec![Val::N(0), s.fld(0).clone()]) }
+        }).collect()
+    };
+    Val::L(vec![Val::N(0), Val::L(vec![env, tables, fvals, modes]), Val::L(real), Val::of_bool(prep.prefix_law), Val::L(short)])
 }
 
 /// std::str::from_utf8 + the JSON printer's own base64, observed through a real JSON match message
